@@ -231,6 +231,90 @@ def replay_cv_reuse(sc):
                                     f"mean(Y - b*(X - price_X)) with X the forward on the spot = {want!r}")
 
 
+class SProcess2(SProcess):
+    """two assets: every path is ((0, s0_j), (0, s1_j))"""
+
+    def __init__(self, ctx, df, concrete=None):
+        super().__init__(ctx, df, concrete)
+        self.model = SModel(2)
+
+    def dimension(self):
+        return 2
+
+    def simulate_one_path(self):
+        j = len(self.handed)
+        pair = [self.ctx.real(f"s0_{j}"), self.ctx.real(f"s1_{j}")] if self.concrete is None else list(self.concrete[j])
+        self.handed.append(pair)
+        arr = np.empty((2, 2), dtype=object if self.concrete is None else float)
+        arr[0, 0], arr[1, 0] = 0.0, 0.0
+        arr[0, 1], arr[1, 1] = pair
+        return SPath(arr)
+
+
+class BasketForward(PAY.Payoff):
+    """scalar payoff of a vector of terminal spots (a user-defined payoff through the public base class): s_0 + s_1 - strike"""
+
+    def __init__(self, strike):
+        super().__init__()
+        self.strike = strike
+
+    def evaluate(self, underlying):
+        return underlying[0] + underlying[1] - self.strike
+
+
+def _two_asset_run(ctx, n, k, notional, df, kx, nx, px, concrete=None):
+    cvprod = PROD.Product(payoff_underlying=UND.NthSpot(1), payoff=PAY.Forward(strike=kx), maturity=1.0, notional=nx)
+    cv = PROD.ControlVariates(products=[cvprod], prices=[px])
+    proc = SProcess2(ctx, df, concrete)
+    cfg = CFG.ConfigurationStandard(mc_paths=n, seed=None, control_variates=cv, nb_of_processes=1)
+    cfg.initialisation_seed = lambda multiprocessing=False: None
+    eng = SE.Engine(cfg, proc)
+    prod = PROD.Product(payoff_underlying=UND.Spot(), payoff=BasketForward(strike=k), maturity=1.0, notional=notional)
+    return eng.price(prod), proc
+
+
+def replay_cv_nthspot(sc):
+    """two assets, product = forward on the basket s_0 + s_1 (Spot underlying), control = forward on the first spot (NthSpot(1)): the run completes
+    and the control samples are the control's payoff on each path"""
+    pairs = [(0.8, 1.1), (1.3, 0.7), (1.1, 1.6), (1.9, 0.9)]
+    try:
+        stats, proc = _two_asset_run(None, len(pairs), 1.0, 2.0, 0.9, 0.2, 2.5, 0.7, concrete=pairs)
+    except Exception as e:
+        return True, f"standard engine, two assets, product on Spot, control on NthSpot(1): price() raises {type(e).__name__}: {str(e)[:160]}"
+    X = np.asarray(stats._control_variates_statistics.stats, dtype=float).reshape(len(pairs), -1)[:, 0]
+    want = np.array([0.9 * 2.5 * (a - 0.2) for a, b in pairs])
+    return not np.allclose(X, want, atol=1e-12), f"control samples {X.tolist()} vs the control's payoff on the paths {want.tolist()}"
+
+
+def h_cv_nthspot(ctx, n=2):
+    """a single-asset control (NthSpot) next to a product on all spots: the control is valued from the product's payoff underlying"""
+    df, notional, k = ctx.real("df", 0), ctx.real("notional"), ctx.real("k")
+    kx, nx, px = ctx.real("kx"), ctx.real("notional_x"), ctx.real("price_x")
+    rp = (replay_cv_nthspot, lambda m: {})
+    npx = PROD.np
+    orig_cov = npx.cov
+
+    def cov_hook(m, y=None, rowvar=True, bias=False, ddof=None, **kw):
+        if V.get_context() is None:
+            return orig_cov(m, y=y, rowvar=rowvar, bias=bias, ddof=ddof, **kw)
+        S = np.empty((2, 2), dtype=object)
+        c = len(ctx.symbols)
+        S[0, 0], S[1, 1] = ctx.real(f"sxx_{c}"), ctx.real(f"syy_{c}", 0)
+        S[0, 1] = S[1, 0] = ctx.real(f"sxy_{c}")
+        ctx.assume(S[0, 0] > Fraction(1, 10**6))
+        return S
+
+    npx.cov = cov_hook
+    try:
+        stats, proc = _two_asset_run(ctx, n, k, notional, df, kx, nx, px)
+    finally:
+        del npx.cov
+    X = np.asarray(stats._control_variates_statistics.stats, dtype=object).reshape(n, -1)[:, 0]
+    ctx.prove("C07.cv.control_samples_are_the_controls_payoff_on_each_path", AND(*[EQ(X[j], df * nx * (proc.handed[j][0] - kx)) for j in range(n)]), info={"n": n, "control": "NthSpot(1) forward"}, replay=rp)
+    raw = np.asarray(stats.price(no_control_variates=True), dtype=object).reshape(-1)
+    ctx.prove("C07.cv.raw_price_unchanged", EQ(raw[0], sum(df * notional * (proc.handed[j][0] + proc.handed[j][1] - k) for j in range(n)) / n), info={"payoff": "basket forward"}, replay=rp)
+
+
 def replay_cv_log(sc):
     """process simulated in log-spot, product on the spot, control = forward on the log-spot (another underlying type than the product's):
     reported price = mean(Y - b*(X - price_X)) with X the control's own payoff df * notional_x * (log S_T - K)"""
@@ -499,6 +583,7 @@ def harnesses(tier):
         hs.append(Harness(f"cv1.N{n}", h_cv_comp, {"n": n}, max_paths=4000, timeout_ms=60000))
     for n in ((3,) if q else (3, 4)):
         hs.append(Harness(f"cv2.N{n}", h_cv2, {"n": n}, max_paths=2000, timeout_ms=120000))
+    hs.append(Harness("cvn.N2.single_asset_control_next_to_a_two_asset_product", h_cv_nthspot, {"n": 2}, max_paths=2000, timeout_ms=60000))
     hs.append(Harness("cv1.N2.log_process", h_cv_comp, {"n": 2, "log_process": True}, max_paths=4000, timeout_ms=60000))
     hs.append(Harness("cv1.N2.controls_object_reused", h_cv_comp, {"n": 2, "reuse": True}, max_paths=4000, timeout_ms=60000))
     hs.append(Harness("cv2.uncorrelated.N3", h_cv2, {"n": 3, "uncorrelated": True}, max_paths=2000, timeout_ms=120000))
@@ -514,7 +599,7 @@ EXPECT = ["C07.price_is_discounted_mean_of_notional_scaled_payoff", "C07.mc_erro
 
 
 # reference replays run when the symbolic run of a harness ends in an exception of the code under analysis (see runner.run_check)
-ERROR_REPLAYS = {"cv2.uncorrelated": (replay_cv2_uncorrelated, {}), "cv2.": (replay_cv2, {"n": 4}), "cv1.N2.controls_object_reused": (replay_cv_reuse, {}), "cv1.N2.log_process": (replay_cv_log, {}), "cv": (replay_cv, {"n": 4, "nx": 2.5}),
+ERROR_REPLAYS = {"cv2.uncorrelated": (replay_cv2_uncorrelated, {}), "cv2.": (replay_cv2, {"n": 4}), "cv1.N2.controls_object_reused": (replay_cv_reuse, {}), "cv1.N2.log_process": (replay_cv_log, {}), "cvn.": (replay_cv_nthspot, {}), "cv": (replay_cv, {"n": 4, "nx": 2.5}),
                  "price.": (replay_price, {"n": 3, "strikes": [0.9, 1.3]}), "twice.": (replay_twice, {"n": 2})}
 
 
